@@ -124,6 +124,8 @@ func RunProfile(profile, tier string, seed int64, out string, shards int, script
 		}
 		driveBigAppend(s, rng, thorough)
 		driveBigIO(s, rng, thorough)
+		driveExtremes(s, rng, thorough)
+		driveWideFrames(s, rng, thorough)
 		return s.finish(profile, types)
 	}
 	if f, ok := profileFns[profile]; ok {
